@@ -90,9 +90,11 @@ Definition view_C15 (c : ctx) (real : oclass) (parsable : bool) : view :=
   match real with
   | CPanic => decided false alpha
   | CTokens =>
+      (* tokens came back: not for a documented misuse, and they must parse ([parsable]: syn parsed what the macro added
+         and the items print back to exactly the emitted tokens) *)
       match misuse_msg c with
       | Some _ => decided false alpha
-      | None => decided true alpha
+      | None => decided parsable alpha
       end
   | CError m =>
       match misuse_msg c, m with
